@@ -241,6 +241,11 @@ func RunOne(p *Prop, c Case, env *Env) (r Result) {
 	t0 := time.Now()
 	r = p.Run(c, env)
 	r.Ms = time.Since(t0).Milliseconds()
+	if len(r.NT) > 50000 {
+		// keep journal lines small; the surplus keys are counted (they are distinct within the case)
+		r.NTCount += len(r.NT) - 50000
+		r.NT = r.NT[:50000]
+	}
 	r.Idx = c.Idx
 	r.Name = c.Name
 	if r.Verdict == "" {
